@@ -6,19 +6,27 @@ PROP = "C05"
 DRIVER = "c05"
 MODEL = "C05"
 MODEL_QUALID = "Model.Retry.run_script"
-FORMAT = ("script [ma_mode(0 fixed,1 per-request); ma_fixed; pred_mode(0 none,1 error flag,2 code even,3 never); bkind(0 none,1 token bucket); bmax; binit; nreq; L; "
-          "backoff_ms x L; nreq blocks [max_i; (okind(0 ok,1 err flagged retryable,2 err flagged not) payload gated(0 immediate,1 on Complete) ready(0 ok,1 error 100000+payload,2 pending until MakeReady)) x L]; "
+FORMAT = ("script [ma_mode(bit0: 0 fixed max_attempts, 1 per-request; ma_mode//2: 0 one service per request, 1 all requests through one Retry handle, 2 through clones of one handle); ma_fixed; "
+          "pred_mode(0 none,1 error flag,2 code even,3 never); bkind(0 none,1 token bucket); bmax; binit; nreq; L; "
+          "backoff x L (a duration: below 2^40 milliseconds, 2^40+n = n nanoseconds); nreq blocks [max_i; (okind(0 ok,1 err flagged retryable,2 err flagged not) payload gated(0 immediate,1 on Complete) ready(0 ok,1 error 100000+payload,2 pending until MakeReady)) x L]; "
           "(op a)*] op 1=Poll a 2=Advance a(ms) 3=Complete a 4=MakeReady a. "
-          "trace: per event [r(-1 no poll,0 pending,1 Ok,2 Err,9 nothing to poll); payload; wake mask; balance(-1 none); deposits; grants; denials] "
+          "trace: per event [r(-1 no poll,0 pending,1 Ok,2 Err,5 poll panicked,9 nothing to poll); payload; wake mask; balance(-1 none); deposits; grants; denials] "
           "++ per request [ncalls; (start_ms, end_ms|-1) per inner call] ++ [calls on an instance not polled ready]")
-RULE = ("structured schedules (complete/poll/advance-by-backoff rounds interleaved over 1-3 requests sharing one budget, with random omissions, late polls, early completions) "
-        "+ uniformly random event lists + all outcome streams up to a small length x max_attempts 0..4 x predicate x budget 0..2; "
+RULE = ("structured schedules (complete/poll/advance-by-backoff rounds interleaved over 1-3 requests sharing one budget, with random omissions, late polls, early completions; "
+        "requests through separate services, one shared Retry handle or its clones) "
+        "+ uniformly random event lists + all outcome streams up to a small length x max_attempts 0..5 x predicate x budget 0..3 "
+        "+ backoffs that are not whole milliseconds (1 ns .. 2.9 ms, polled every millisecond) + long backoffs (minutes to 2^36 ms, polled one millisecond before and at the deadline) "
+        "+ bursts of 130-300 zero-backoff failures in one poll (tokio's cooperative budget of 128 per poll, incl. gated calls and a positive backoff at the budget edge, max_attempts up to 400); "
         "non-trivial = some request made a retry, was denied by the budget, or failed readiness")
-TRUSTED = ["tokio::time::sleep (ready iff now >= deadline at whole-ms instants), oneshot wake-ups: modelled, tied to the library only by this correspondence run",
+TRUSTED = ["tokio::time::sleep (ready at the first poll at or after the deadline rounded UP to a whole millisecond), oneshot wake-ups, and tokio's cooperative budget "
+           "(128 completed Sleep/oneshot operations per poll of a task; the next one returns Pending after waking the task itself): modelled in Lib/TokioTime.v + Model/Retry.v drive, tied to the library only by this correspondence run",
            "the scripted inner service, error type, predicates and FnInterval closure in harness/src/bin/c05.rs mirror Model/Retry.v run_script",
            "budget operations are observed through a logging wrapper around the real TokenBucketBudget"]
-ASSUMPTIONS = ["whole-millisecond backoffs and instants", "polls of one future are sequential; a poll is atomic w.r.t. the budget (single-threaded executor; the atomic-step interleavings of the budget itself are C08)",
-               "token bucket sizes below 2^64/1000", "max_attempts as a unary nat in the model (small values in scripts)"]
+ASSUMPTIONS = ["polls and clock advances happen at whole-millisecond instants (backoffs are arbitrary nanosecond values below 2^40 ms; Duration::MAX, which tokio turns into a 30-year sleep, is not driven)",
+               "polls of one future are sequential; a poll is atomic w.r.t. the budget (single-threaded executor; the atomic-step interleavings of the budget itself are C08, which is also where a change to the token bucket's atomics is caught)",
+               "every poll of a call future starts with the cooperative budget of a fresh task poll (128), as under any tokio executor; a future polled inside tokio::task::unconstrained is outside the model",
+               "the step machine's budget is the token bucket (TokenBucketBudget::new incl. its clamping); any other RetryBudget is covered by the stream-level theorems (arbitrary grant stream) only",
+               "max_attempts is a unary nat in the model (values up to 400 in scripts)"]
 
 
 # ---------------------------------------------------------------- scripts
@@ -35,17 +43,26 @@ def build(ma_mode, ma_fixed, pred, bkind, bmax, binit, backoffs, reqs, evs):
     return s
 
 
+FLAG = 1 << 40
+MS = 1000000
+
+
+def ns_of(e):
+    """duration encoding shared with Lib/TokioTime.v and the driver"""
+    return max(0, e) * MS if e < FLAG else e - FLAG
+
+
 def parse(s):
     s = list(s) + [0] * max(0, 8 - len(s))
     ma_mode, ma_fixed, pred, bkind, bmax, binit, n, L = s[:8]
     n, L = max(0, n), max(0, L)
     g = lambda i: s[i] if 0 <= i < len(s) else 0
-    backoffs = [max(0, g(8 + k)) for k in range(L)]
+    backoffs = [ns_of(g(8 + k)) for k in range(L)]
     blk = 1 + 4 * L
     reqs = []
     for i in range(n):
         base = 8 + L + i * blk
-        mx = max(0, ma_fixed) if ma_mode == 0 else max(0, g(base))
+        mx = max(0, ma_fixed) if ma_mode % 2 == 0 else max(0, g(base))
         ent = [tuple(g(base + 1 + 4 * k + j) for j in range(4)) for k in range(L)]
         reqs.append((mx, ent))
     rest = s[8 + L + n * blk:]
@@ -56,7 +73,7 @@ def parse(s):
             evs.append((op, a))
         elif op == 2:
             evs.append((op, a))
-    return dict(ma_mode=ma_mode, pred=pred, bkind=bkind, bmax=max(0, bmax), binit=max(0, binit), n=n, L=L,
+    return dict(ma_mode=ma_mode % 2, handle=ma_mode // 2, pred=pred, bkind=bkind, bmax=max(0, bmax), binit=max(0, binit), n=n, L=L,
                 backoffs=backoffs, reqs=reqs, evs=evs)
 
 
@@ -96,6 +113,15 @@ def retryable(p, e):
 
 # ---------------------------------------------------------------- monitor
 def monitor(s, t):
+    """C05 and nothing more: (a) every request that returned made at least one inner call, and no
+    request makes more than max(1, max_attempts); (b) a retry follows only an error the predicate
+    accepts; the request returns the outcome of its last inner call (or, as the repaired code does,
+    the readiness error of the service before the next attempt) and gives up on a retryable error
+    only for a reason the statement allows (max_attempts, a denied withdrawal, service not ready);
+    (c) retry k+1 starts no earlier than the failure of attempt k + backoff(k), in nanoseconds;
+    (d) with a budget, a request never has more retries than withdrawals granted to it.
+    How the budget computes its answers, when it is refilled, what balance() shows are C08's business
+    and are pinned here by the model comparison only."""
     d = decode(s, t)
     if d is None:
         return "malformed or panicking run: %s" % t[:12]
@@ -103,56 +129,26 @@ def monitor(s, t):
     n = p["n"]
     if viol != 0:
         return "inner service called %d times on an instance that was not polled ready" % viol
-    now = 0
-    returned = {}          # request -> (r, payload, event index, denials in that event)
+    returned = {}          # request -> (r, payload)
     grants_by = [0] * n
-    bal = p["binit"] if p["bkind"] else -1
-    deposits = grants = 0
+    denials_by = [0] * n
     for k, ((op, a), o) in enumerate(zip(p["evs"], evt)):
         r, payload, mask, b, dep, gr, dn = o
-        if op == 2:
-            now += max(0, a)
-        if op != 1:
-            if r != -1 or dep or gr or dn:
-                return "budget operation or result outside a poll (event %d)" % k
-        else:
+        if op == 1:
+            if r == 5:
+                return "request %d: the poll panicked instead of returning a result (event %d)" % (a, k)
             if r in (1, 2):
                 if a in returned:
                     return "request %d returned twice" % a
-                returned[a] = (r, payload, k, dn)
+                returned[a] = (r, payload)
             grants_by[a] += gr
-            if r == 1 and p["bkind"] and dep != 1:
-                return "success of request %d deposited %d times (exactly once expected)" % (a, dep)
-            if r != 1 and dep:
-                return "deposit without a success (event %d)" % k
-            if dn and r != 2:
-                return "denied withdrawal but the call did not fail at once (event %d)" % k
-            if dn > 1:
-                return "more than one denial in one poll"
-        if p["bkind"]:
-            # sequential token bucket restated: grants only from a positive balance,
-            # a denial only at balance 0, deposit (+1 capped at max; min) last
-            if gr > bal:
-                return "granted %d withdrawals with balance %d (event %d)" % (gr, bal, k)
-            bal -= gr
-            if dn and bal != 0:
-                return "withdrawal denied although %d tokens were left (event %d)" % (bal, k)
-            if dep:
-                bal = min(bal + 1, p["bmax"])
-            if b != bal:
-                return "balance %d after event %d, token bucket arithmetic gives %d" % (b, k, bal)
-            deposits += dep
-            grants += gr
-            if grants > p["binit"] + deposits:
-                return "more withdrawals granted (%d) than initial balance %d + deposits %d" % (grants, p["binit"], deposits)
-        elif b != -1 or dep or gr or dn:
+            denials_by[a] += dn
+        if not p["bkind"] and (dep or gr or dn):
             return "budget activity without a budget"
-    total_retries = 0
     for i in range(n):
         mx = p["reqs"][i][0]
         cs = calls[i]
         nc = len(cs)
-        total_retries += max(0, nc - 1)
         if nc > max(1, mx):
             return "request %d: %d inner calls, max(1, max_attempts) = %d" % (i, nc, max(1, mx))
         for k in range(nc - 1):
@@ -163,32 +159,29 @@ def monitor(s, t):
             if en < 0:
                 return "request %d: attempt %d started while attempt %d still in flight" % (i, k + 1, k)
             bk = p["backoffs"][k] if k < p["L"] else 0
-            if cs[k + 1][0] < en + bk:
-                return "request %d: attempt %d started at %d, earlier than failure at %d + backoff %d" % (
+            if cs[k + 1][0] * MS < en * MS + bk:
+                return "request %d: attempt %d started at %d ms, earlier than failure at %d ms + backoff %d ns" % (
                     i, k + 1, cs[k + 1][0], en, bk)
         if p["bkind"]:
             retries = max(0, nc - 1)
             if retries > grants_by[i]:
                 return "request %d: %d retries but only %d granted withdrawals" % (i, retries, grants_by[i])
         if i in returned:
-            r, payload, k, dn = returned[i]
+            r, payload = returned[i]
             if nc < 1:
                 return "request %d returned without calling the inner service" % i
             last = entry(p, i, nc - 1)
             nxt = entry(p, i, nc)
-            ready_err = (nc >= 1 and cs[nc - 1][1] >= 0 and nxt[3] == 1 and r == 2 and payload == 100000 + nxt[1]
-                         and retryable(p, last) and nc < max(1, mx))
-            if ready_err:
-                continue
             if cs[nc - 1][1] < 0:
                 return "request %d returned while its last inner call was still in flight" % i
             exp = (1, last[1]) if last[0] == 0 else (2, last[1])
+            may_retry = last[0] != 0 and retryable(p, last) and nc < max(1, mx)
+            if may_retry and nxt[3] == 1 and (r, payload) == (2, 100000 + nxt[1]):
+                continue        # the service was not ready for the next attempt
             if (r, payload) != exp:
                 return "request %d returned %s, last observed outcome is %s" % (i, (r, payload), exp)
-            if last[0] != 0 and retryable(p, last) and nc < max(1, mx) and not dn:
+            if may_retry and not denials_by[i]:
                 return "request %d gave up after %d attempts on a retryable error (max_attempts %d, no denial)" % (i, nc, mx)
-    if p["bkind"] and total_retries > p["binit"] + deposits:
-        return "total retries %d exceed initial balance %d + deposits %d" % (total_retries, p["binit"], deposits)
     return None
 
 
@@ -217,8 +210,28 @@ def corpus():
                      [(1, 0), (2, 1), (1, 0)]))
     out.append(build(0, 4, 0, 0, 0, 0, [1, 1, 1, 1], [(0, [e(1, 1), e(1, 2, 0, 2), e(0, 3, 1, 2), e(0, 4)])],
                      [(1, 0), (2, 1), (1, 0), (4, 0), (1, 0), (2, 1), (1, 0), (1, 0), (4, 0), (1, 0), (3, 0), (1, 0)]))
-    # initial tokens above max: a deposit lowers the balance to max
+    # initial tokens above max: the constructor caps the balance at max
     out.append(build(0, 3, 0, 1, 1, 3, [0, 0, 0], [(0, [e(1, 1), e(0, 2), e(0, 3)])], [(1, 0)]))
+    # backoffs of 1 ns, 0.999999 ms, 1.000001 ms, 1.9 ms: the timer fires at the next whole millisecond
+    out.append(build(0, 6, 0, 0, 0, 0, [FLAG + 1, FLAG + 999999, FLAG + 1000001, FLAG + 1900000, FLAG + 0],
+                     [(0, [e(1, 1), e(1, 2), e(1, 3), e(1, 4), e(1, 5)])],
+                     [(1, 0), (1, 0), (2, 1), (1, 0), (1, 0), (2, 1), (1, 0), (2, 1), (1, 0), (2, 1), (1, 0), (2, 1), (1, 0), (2, 1), (1, 0), (2, 1), (1, 0)]))
+    # one minute, one hour, 2^36 ms
+    out.append(build(0, 6, 0, 0, 0, 0, [61000, 3600000, 2 ** 36 + 7], [(0, [e(1, 1), e(1, 2), e(1, 3)])],
+                     [(1, 0), (2, 60999), (1, 0), (2, 1), (1, 0), (2, 3599999), (1, 0), (2, 1), (1, 0), (2, 2 ** 36), (1, 0), (2, 6), (1, 0), (2, 1), (1, 0)]))
+    # 150 immediate failures, zero backoff: the first poll stops at the 129th sleep (cooperative budget) and wakes itself
+    out.append(build(0, 200, 0, 0, 0, 0, [0] * 150, [(0, [e(1, k) for k in range(150)])], [(1, 0), (1, 0), (1, 0)]))
+    # ... with the first call gated (its completion costs one unit) and a gated call met with the budget exhausted
+    out.append(build(0, 200, 0, 0, 0, 0, [0] * 150, [(0, [e(1, k, 1 if k in (0, 127) else 0) for k in range(150)])],
+                     [(1, 0), (3, 0), (1, 0), (3, 0), (1, 0), (1, 0)]))
+    # ... with a 3 ms backoff exactly where the budget runs out
+    out.append(build(0, 200, 0, 0, 0, 0, [0] * 128 + [3] + [0] * 21, [(0, [e(1, k) for k in range(150)])],
+                     [(1, 0), (1, 0), (2, 3), (1, 0), (1, 0)]))
+    # two requests through ONE Retry handle / through clones of it
+    for hm in (1, 2):
+        out.append(build(2 * hm, 3, 0, 1, 2, 1, [3, 3, 3],
+                         [(0, [e(1, 1, 1), e(0, 2, 1), e(0, 3)]), (0, [e(1, 11, 1), e(1, 12, 1), e(0, 13)])],
+                         [(1, 0), (1, 1), (3, 0), (1, 0), (3, 1), (1, 1), (2, 3), (1, 0), (3, 0), (1, 0)]))
     return out
 
 
@@ -236,7 +249,7 @@ def rand_entries(rng, i, L, p_ok, p_gated, p_rdy):
 def random_header(rng, small=False):
     n = rng.choice([1, 1, 2, 2, 3])
     L = rng.randint(1, 6)
-    ma_mode = rng.choice([0, 1])
+    ma_mode = rng.choice([0, 1]) + 2 * rng.choice([0, 0, 0, 1, 2])
     ma_fixed = rng.choice([0, 1, 2, 3, 3, 4, 5, 7])
     pred = rng.choice([0, 0, 0, 1, 1, 1, 2, 3])
     bkind = rng.choice([0, 1, 1])
@@ -292,6 +305,90 @@ def unstructured(rng, maxlen=40):
     return build(*h[:6], h[6], h[7], evs)
 
 
+SUB_MS = [1, 400000, 999999, 1000001, 1500000, 1900000, 2000001, 2999999, 900000, 500]
+LONG_MS = [65, 1000, 61000, 120000, 3600000, 86400000, 2 ** 31, 2 ** 32 + 1, 2 ** 36 + 7]
+
+
+def prompt_round(evs, i, gated, step_ms, n_steps):
+    """complete (if gated), poll, then n_steps x (advance step_ms, poll)"""
+    if gated:
+        evs.append((3, i))
+    evs.append((1, i))
+    for _ in range(n_steps):
+        evs += [(2, step_ms), (1, i)]
+
+
+def submilli(rng):
+    """backoffs that are not whole milliseconds; polled every millisecond so that the exact firing instant shows"""
+    n = rng.choice([1, 1, 2])
+    L = rng.randint(2, 5)
+    backoffs = [FLAG + rng.choice(SUB_MS) for _ in range(L)]
+    if rng.random() < 0.3:
+        backoffs[rng.randrange(L)] = rng.choice([0, 1, 2])
+    reqs = []
+    for i in range(n):
+        nf = rng.randint(1, L)
+        ent = [((1 if k < nf else 0), 100 * i + 10 * k + rng.randrange(10), 1 if rng.random() < 0.3 else 0, 0) for k in range(L)]
+        reqs.append((L + 1, ent))
+    evs = []
+    for _ in range(L + 1):
+        for i in range(n):
+            prompt_round(evs, i, True, 1, rng.choice([3, 4]))
+        if rng.random() < 0.2:
+            evs.append((2, rng.choice([1, 2])))
+    bk = rng.choice([0, 1])
+    return build(rng.choice([0, 2, 4]), L + 1, 0, bk, 8, 8, backoffs, reqs, evs)
+
+
+def long_delays(rng):
+    """backoffs of minutes .. 2^36 ms: still pending one millisecond before the deadline, retried at it"""
+    L = rng.randint(1, 3)
+    bms = [rng.choice(LONG_MS) for _ in range(L)]
+    ent = [(1, 10 * k + 1, 1 if rng.random() < 0.3 else 0, 0) for k in range(L)] + [(0, 99, 0, 0)]
+    evs = [(3, 0), (1, 0)]
+    for b in bms:
+        cut = rng.choice([1, 1, 2, 60, b // 2])
+        cut = max(1, min(cut, b - 1))
+        evs += [(2, b - cut), (1, 0), (2, cut - 1), (1, 0), (2, 1), (3, 0), (1, 0), (3, 0), (1, 0)]
+    return build(0, L + 1, 0, 0, 0, 0, bms + [0], [(0, ent)], evs)
+
+
+def coop_burst(rng):
+    """130-300 immediately failing attempts with zero backoff: one poll can complete only 128 sleeps"""
+    n = rng.choice([1, 1, 1, 2])
+    L = rng.randint(130, 300)
+    backoffs = [0] * L
+    for _ in range(rng.choice([0, 0, 1, 2])):
+        backoffs[rng.choice([126, 127, 128, 129, rng.randrange(L)])] = rng.choice([1, 3, FLAG + 500000])
+    per_request = rng.choice([0, 1])
+    mx_fixed = rng.choice([L + 50, 400, 200, 129, 128, 130])
+    reqs = []
+    for i in range(n):
+        gated_at = set(rng.sample(range(L), rng.choice([0, 0, 0, 1, 2])))
+        if rng.random() < 0.4:
+            gated_at |= {rng.choice([0, 126, 127, 128, 129])}
+        nf = rng.choice([L, L, rng.randint(100, L)])
+        rdy_at = rng.choice([-1, -1, -1, -1, 1, 128, 129, rng.randrange(L)])
+        ent = [((1 if k < nf else 0), 1000 * i + k, 1 if k in gated_at else 0,
+                (rng.choice([1, 2, 2]) if k == rdy_at else 0)) for k in range(L)]
+        reqs.append((rng.choice([L + 1, 400, 150, 129]), ent))
+    bk = rng.choice([0, 0, 1])
+    binit = rng.choice([400, 400, 400, 128, 127, 5])
+    evs = []
+    for _ in range(rng.randint(4, 14)):
+        i = rng.randrange(n)
+        x = rng.random()
+        if x < 0.55:
+            evs.append((1, i))
+        elif x < 0.75:
+            evs += [(3, i), (1, i)]
+        elif x < 0.9:
+            evs += [(2, rng.choice([1, 3])), (1, i)]
+        else:
+            evs += [(4, i), (1, i)]
+    return build(per_request + 2 * rng.choice([0, 0, 1, 2]), mx_fixed, 0, bk, 400, binit, backoffs, reqs, evs)
+
+
 def exhaustive(maxlen, maxes, budgets, preds=(0, 1), backoff=2):
     """every outcome stream up to maxlen over {ok, retryable, refused}: one request, prompt polling"""
     for L in range(1, maxlen + 1):
@@ -312,11 +409,17 @@ def generate(rng, tier):
         out += [structured(rng) for _ in range(1400)]
         out += [unstructured(rng) for _ in range(500)]
         out += list(exhaustive(3, (0, 1, 2, 3), (None, 0, 1)))
+        out += [submilli(rng) for _ in range(150)]
+        out += [long_delays(rng) for _ in range(60)]
+        out += [coop_burst(rng) for _ in range(80)]
     else:
         out += [structured(rng) for _ in range(30000)]
         out += [unstructured(rng, 80) for _ in range(10000)]
         out += list(exhaustive(5, (0, 1, 2, 3, 4, 5), (None, 0, 1, 2, 3)))
         out += list(exhaustive(4, (0, 1, 2, 3, 4), (None, 1), preds=(2, 3), backoff=0))
+        out += [submilli(rng) for _ in range(3000)]
+        out += [long_delays(rng) for _ in range(1000)]
+        out += [coop_burst(rng) for _ in range(600)]
     return out
 
 
@@ -332,7 +435,11 @@ def classify(s, t):
     d = decode(s, t)
     p = parse(s)
     out = ["nreq%d" % p["n"], "budget_%s" % ("none" if not p["bkind"] else "tb%d" % min(p["binit"], 3)),
-           "pred%d" % p["pred"], "max_%s" % ("per_request" if p["ma_mode"] else "fixed")]
+           "pred%d" % p["pred"], "max_%s" % ("per_request" if p["ma_mode"] else "fixed"), "handle_mode_%d" % p["handle"]]
+    if any(b % MS for b in p["backoffs"]):
+        out.append("has_submillisecond_backoff")
+    if any(b >= 60000 * MS for b in p["backoffs"]):
+        out.append("has_backoff_of_a_minute_or_more")
     for (mx, _) in p["reqs"]:
         if mx == 0:
             out.append("has_max0")
@@ -341,7 +448,9 @@ def classify(s, t):
     if d:
         _, evt, calls, _ = d
         m = max([len(c) for c in calls] + [0])
-        out.append("most_calls_%d" % min(m, 5))
+        out.append("most_calls_%s" % (min(m, 5) if m < 129 else "129plus"))
+        if any(o[0] == 0 and o[2] & (1 << a) for (op, a), o in zip(p["evs"], evt) if op == 1):
+            out.append("poll_ended_self_woken_(coop_budget)")
         if any(o[6] for o in evt):
             out.append("saw_denial")
         if any(o[4] for o in evt):
